@@ -132,6 +132,11 @@ func (d *dir) RepoGet(ctx context.Context, repoStr string) (Repo, error) {
 			return nil, ctx.Err()
 		}
 	}
+	// names beyond what a path component can hold fail with a filesystem error on the first write,
+	// OCI recommends clients keep the name (with the hostname) under 256 characters
+	if len(repoStr) > 255 {
+		return nil, fmt.Errorf("repo %s is longer than 255 characters%.0w", repoStr, types.ErrRepoNotAllowed)
+	}
 	if stringsHasAny(strings.Split(repoStr, "/"), indexFile, layoutFile, blobsDir) {
 		return nil, fmt.Errorf("repo %s cannot contain %s, %s, or %s%.0w", repoStr, indexFile, layoutFile, blobsDir, types.ErrRepoNotAllowed)
 	}
